@@ -118,6 +118,9 @@ func cmdVerify(args []string) {
 		if key == "lemmas" {
 			continue
 		}
+		if *all && w.inlinedOnly(key) {
+			continue
+		}
 		fc, err := w.NewFnCtx(key)
 		if err != nil {
 			fmt.Println("ERROR", err)
